@@ -6,6 +6,7 @@ package main
 import (
 	"bufio"
 	"fmt"
+	"reflect"
 	"sort"
 	"strings"
 
@@ -29,6 +30,30 @@ type c12case struct {
 	TagL  int         `json:"tagl"`
 	Bord  int         `json:"border"`
 	Indel int         `json:"indel"`
+	Reps  int         `json:"reps"` // demux: parse the sheet and demultiplex every read this many times (fresh Go maps each time)
+	Hits  bool        `json:"hits"` // demux: also report the primer matches collected by the library (verif hook)
+}
+
+type c12hit struct {
+	B   int    `json:"b"`
+	E   int    `json:"e"`
+	K   int    `json:"k"`
+	Fwd string `json:"fwd"`
+	Rev string `json:"rev"`
+	C   bool   `json:"c"`   // complemented pattern
+	Dir bool   `json:"dir"` // PrimerMatch.Forward
+}
+
+type c12order struct {
+	Order []string `json:"order"`
+	Tag   string   `json:"tag"`
+	Dist  int      `json:"dist"`
+}
+
+type c12alt struct {
+	Read int      `json:"read"`
+	Rep  int      `json:"rep"`
+	Recs []c12res `json:"recs"`
 }
 
 type c12sample struct {
@@ -84,13 +109,19 @@ type c12res struct {
 }
 
 type c12obs struct {
-	Kind   string      `json:"kind"` // ok | parse_error | fatal | panic | int | str | closest
-	Err    string      `json:"err,omitempty"`
-	Lib    []c12marker `json:"lib,omitempty"`
-	Reads  [][]c12res  `json:"reads,omitempty"`
-	Int    int         `json:"int"`
-	Str    string      `json:"str"`
-	Stable bool        `json:"stable"`
+	Kind     string      `json:"kind"` // ok | parse_error | fatal | panic | int | str | closest
+	Err      string      `json:"err,omitempty"`
+	Lib      []c12marker `json:"lib,omitempty"`
+	Reads    [][]c12res  `json:"reads,omitempty"`
+	Int      int         `json:"int"`
+	Str      string      `json:"str"`
+	Stable   bool        `json:"stable"`
+	Hits     [][]c12hit  `json:"hits,omitempty"`
+	Unstable []c12alt    `json:"unstable,omitempty"` // outputs that differ between repetitions (must be empty)
+	Orders   []c12order  `json:"orders,omitempty"`   // closest: one entry per distinct iteration order observed
+	NOrders  int         `json:"n_orders"`
+	Target   int         `json:"target_orders"`
+	Builds   int         `json:"builds"`
 }
 
 type c12fatal struct{ code int }
@@ -142,7 +173,7 @@ func c12lib(lib *obingslibrary.NGSLibrary) []c12marker {
 	return res
 }
 
-func c12demux(c c12case) c12obs {
+func c12demuxOnce(c c12case, withHits bool) c12obs {
 	lib, err := obiformats.ReadNGSFilter(strings.NewReader(c.Sheet))
 	if err != nil {
 		return c12obs{Kind: "parse_error", Err: err.Error()}
@@ -153,6 +184,14 @@ func c12demux(c c12case) c12obs {
 	o := c12obs{Kind: "ok", Lib: c12lib(lib), Reads: make([][]c12res, 0, len(c.Reads))}
 	for i, r := range c.Reads {
 		s := obiseq.NewBioSequence(fmt.Sprintf("r%d", i), []byte(r), "")
+		if withHits {
+			hh := make([]c12hit, 0, 4)
+			for _, h := range lib.VerifPrimerMatches(s) {
+				hh = append(hh, c12hit{B: h.Begin, E: h.End, K: h.Mismatches, Fwd: h.Primers.Forward, Rev: h.Primers.Reverse, C: h.Complement, Dir: h.Forward})
+			}
+			sort.SliceStable(hh, func(i, j int) bool { return hh[i].B < hh[j].B })
+			o.Hits = append(o.Hits, hh)
+		}
 		out, err := lib.ExtractMultiBarcode(s)
 		if err != nil {
 			return c12obs{Kind: "parse_error", Err: "extract: " + err.Error()}
@@ -185,31 +224,124 @@ func c12demux(c c12case) c12obs {
 	return o
 }
 
-func c12closest(c c12case) c12obs {
-	lib := obingslibrary.MakeNGSLibrary()
-	m, _ := lib.GetMarker("acgtacgtacgtacgtac", "ttggccaattggccaatt")
-	for _, t := range c.Tags {
-		m.GetPCR(t[0], t[1])
+// the sheet is parsed and every read demultiplexed c.Reps times: every repetition builds fresh Go maps (new hash seeds, hence
+// other iteration orders of the marker and sample tables); the records must not depend on it
+func c12demux(c c12case) c12obs {
+	o := c12demuxOnce(c, c.Hits)
+	if o.Kind != "ok" {
+		return o
 	}
+	for rep := 1; rep < c.Reps; rep++ {
+		o2 := c12demuxOnce(c, false)
+		if o2.Kind != "ok" {
+			o.Unstable = append(o.Unstable, c12alt{Read: -1, Rep: rep})
+			continue
+		}
+		for i := range o.Reads {
+			if !reflect.DeepEqual(o.Reads[i], o2.Reads[i]) && len(o.Unstable) < 8 {
+				o.Unstable = append(o.Unstable, c12alt{Read: i, Rep: rep, Recs: o2.Reads[i]})
+			}
+		}
+	}
+	return o
+}
+
+// Closest*Tag is run on freshly built markers until every iteration order of the (side) tags has been observed
+// (n <= 5 pairs) or a build budget is spent: the order actually followed by the range over the Go map is read off the
+// calls to the distance function.
+func c12closest(c c12case) c12obs {
 	d := obingslibrary.Hamming
 	if c.Dist == "lev" {
 		d = obingslibrary.Levenshtein
 	}
-	run := func() (string, int) {
+	// distinct pairs, multiplicities of the side tags
+	type pair [2]string
+	seenp := map[pair]bool{}
+	pairs := make([][2]string, 0, len(c.Tags))
+	for _, t := range c.Tags {
+		p := pair{strings.ToLower(t[0]), strings.ToLower(t[1])}
+		if !seenp[p] {
+			seenp[p] = true
+			pairs = append(pairs, t)
+		}
+	}
+	n := len(pairs)
+	mult := map[string]int{}
+	for _, t := range pairs {
 		if c.Side == "r" {
-			return m.ClosestReverseTag(c.A, d)
+			mult[strings.ToLower(t[1])]++
+		} else {
+			mult[strings.ToLower(t[0])]++
 		}
-		return m.ClosestForwardTag(c.A, d)
 	}
-	t0, d0 := run()
+	fact := func(k int) int {
+		r := 1
+		for i := 2; i <= k; i++ {
+			r *= i
+		}
+		return r
+	}
+	target, budget := -1, 150
+	if n <= 5 {
+		target = fact(n)
+		for _, k := range mult {
+			target /= fact(k)
+		}
+		budget = 6000
+	}
+	seen := map[string]int{}
+	orders := make([]c12order, 0, 8)
 	stable := true
-	for k := 0; k < 12; k++ { // Go randomises the map iteration order on every range
-		t, dd := run()
-		if t != t0 || dd != d0 {
-			stable = false
+	builds := 0
+	rs := uint64(88172645463325252)
+	for ; builds < budget && (target < 0 || len(seen) < target); builds++ {
+		lib := obingslibrary.MakeNGSLibrary()
+		m, _ := lib.GetMarker("acgtacgtacgtacgtac", "ttggccaattggccaatt")
+		// insertion order: a pseudo-random permutation (xorshift), the identity first
+		idx := make([]int, n)
+		for i := range idx {
+			idx[i] = i
+		}
+		if builds > 0 {
+			for i := n - 1; i > 0; i-- {
+				rs ^= rs << 13
+				rs ^= rs >> 7
+				rs ^= rs << 17
+				j := int(rs % uint64(i+1))
+				idx[i], idx[j] = idx[j], idx[i]
+			}
+		}
+		for _, i := range idx {
+			m.GetPCR(pairs[i][0], pairs[i][1])
+		}
+		for k := 0; k < 3; k++ { // every range starts at a random bucket: rotations of the bucket order
+			order := make([]string, 0, n)
+			wd := func(a, b string) int { order = append(order, a); return d(a, b) }
+			var t string
+			var dd int
+			if c.Side == "r" {
+				t, dd = m.ClosestReverseTag(c.A, wd)
+			} else {
+				t, dd = m.ClosestForwardTag(c.A, wd)
+			}
+			key := strings.Join(order, ",")
+			if _, ok := seen[key]; !ok {
+				seen[key] = len(orders)
+				differs := len(orders) > 0 && (orders[0].Tag != t || orders[0].Dist != dd)
+				if differs {
+					stable = false
+				}
+				if len(orders) < 130 || differs {
+					orders = append(orders, c12order{Order: order, Tag: t, Dist: dd})
+				}
+			}
 		}
 	}
-	return c12obs{Kind: "closest", Str: t0, Int: d0, Stable: stable}
+	o := c12obs{Kind: "closest", Stable: stable, Orders: orders, NOrders: len(seen), Target: target, Builds: builds}
+	if len(orders) > 0 {
+		o.Str, o.Int = orders[0].Tag, orders[0].Dist
+	}
+	return o
 }
 
 func c12run(c c12case) (o c12obs) {
